@@ -1,6 +1,6 @@
 CONSTANTS
   MaxLen = 7
-  Sample = 600
+  Sample = 40
 INIT Init
 NEXT Next
 VIEW View
